@@ -386,7 +386,8 @@ pub fn run(rep: &mut StageReport, tier: &str, seed: u64) {
                     }
                     _ => {
                         // the wire composition: encode -> batch -> compress -> decompress -> unbatch -> decode
-                        let k = rng.below(6) as usize;
+                        // (now and then a batch of thousands of values)
+                        let k = if rng.below(400) == 0 { *rng.pick(&[4096usize, 4097, 5000, 9000]) } else { rng.below(6) as usize };
                         let vals: Vec<Sample> = (0..k).map(|_| rand_sample(rng, 1)).collect();
                         let c = BincodeCodec::<Sample>::default();
                         let encs: Vec<Bytes> = vals.iter().map(|v| c.encode(v.clone()).unwrap()).collect();
